@@ -224,12 +224,16 @@ def run(ck, prog, tier, load):
     rsn = prog.find(r"^actix_router::regex_set::RegexSet::new$")
     ck.anchor("C10-d", len(rsn), 1, "RegexSet::new")
     for b in rsn:
-        inner = [(bb, t) for bb, t in b.calls(r"RegexSet::new$|Regex::new$") if not cname(t).startswith("actix_router::")]
         args_in = set(i_ for i_, l in enumerate(b.locals) if l["k"] == "arg")
         REORDER = r"::(dedup|dedup_by|dedup_by_key|sort|sort_unstable|sort_by|sort_by_key|retain|remove|swap_remove|truncate|reverse|drain|pop|swap|rotate_left|rotate_right|clear)$"
         touched = [(bb, cname(t)) for bb, t in b.calls(REORDER) if t["args"] and base_local(b, t["args"][0]) in args_in]
-        direct = bool(inner) and all(any(base_local(b, a_) in args_in for a_ in t["args"]) or any(e_calls(b.op_expr(a_, 6), r"IntoIterator>::into_iter$|slice.*::iter$|Iterator::map$") and root_is(b.op_expr(a_, 6), args_in) for a_ in t["args"]) for bb, t in inner)
-        ck.ob("C10-d.regex-set-keeps-every-pattern", "RegexSet::new", direct and not touched, b, (touched or inner or [(None, None)])[0][0],
+        # the value stored in the set: built from the parameter element by element, in order (either the regex crate's own
+        # set constructor, or map(Regex::new).collect() under regex-lite); nothing that selects, skips or reverses
+        built = [b.rv_expr(s_["rv"], 8) for bb, i_, s_ in b.assigns() if s_["rv"]["k"] == "agg" and (s_["rv"].get("adt") or "").endswith("regex_set::RegexSet")]
+        ALLOWED = r"RegexSet::new$|Result.*::unwrap$|Iterator::collect$|Iterator::map$|slice::iter$|IntoIterator>::into_iter$|Deref>::deref$|Vec.*::into_iter$|Vec.*::iter$"
+        inner = built
+        direct = bool(built) and all(root_is(e, args_in) and all(rx(ALLOWED).search(c_[1] or "") for c_ in e_calls(e)) for e in built)
+        ck.ob("C10-d.regex-set-keeps-every-pattern", "RegexSet::new", direct and not touched, b, touched[0][0] if touched else None,
               "the expressions are handed to the set as given, none dropped or moved (%s): index i of the set must stay pattern i of the per-pattern table" % (", ".join(n.split("::")[-1] for bb, n in touched) or "no reordering call"))
     # when the path text is replaced (NormalizePath inside a scope) every stored offset is translated: the consumed prefix too
     uwr = prog.find(r"^actix_router::path::Path(<T>)?::update_with_reindex$")
